@@ -380,3 +380,24 @@ Proof.
   rewrite E in E'. injection E' as <-.
   rewrite (proj1 (t4_facets_inside _ ts _ p F)). symmetry. now apply wed_inside_facets.
 Qed.
+
+(* ---- ARB tetrahedron: -b is the open convex hull of the four vertices ---- *)
+From T4V Require Import C03.ProofsHull.
+
+Theorem arb_tetra_solid (p1 p2 p3 p4 q5 q6 q7 q8 : pt) :
+  let V := [p1; p2; p3; p4; q5; q6; q7; q8] in
+  let descr := [123; 124; 134; 234; 0; 0]%N in
+  det (vsub p2 p1) (vsub p3 p1) (vsub p4 p1) <> 0 ->
+  Forall (facet_admissible [p1; p2; p3; p4] (centroid_of [p1; p2; p3; p4])) tetra_facets ->
+  forall es, arb RS (flat V) descr = Ok es ->
+  forall p, all_negative es p <-> hull4 p1 p2 p3 p4 p.
+Proof.
+  intros V descr HD Adm es E p.
+  assert (Nv : arb_nvert descr = 4%nat) by reflexivity.
+  assert (Fl : arb_facet_lists descr = tetra_facets) by reflexivity.
+  destruct (arb_inside_ok V descr eq_refl eq_refl) with (es := es) (p := p) as [I _].
+  - rewrite Nv. lia.
+  - rewrite Nv, Fl. exact Adm.
+  - exact E.
+  - rewrite <- I, Nv, Fl. cbn [firstn V]. now apply tetra_hull.
+Qed.
